@@ -145,13 +145,8 @@ func runWrapper(in qinput) *qrun {
 		d := r.lastD
 		if d <= 0 {
 			r.tw.add(item)
-		} else if e, ok := r.tw.wait[item]; ok {
-			if t+d < e.deadline {
-				e.deadline = t + d
-			}
 		} else {
-			r.tw.seq++
-			r.tw.wait[item] = &wentry{deadline: t + d, seq: r.tw.seq}
+			r.tw.insert(item, t+d)
 		}
 	}
 	getDue := func() bool { return !r.tw.proc && len(r.tw.fifo) > 0 }
@@ -203,7 +198,7 @@ func runWrapper(in qinput) *qrun {
 	internal := func(kind string, item int, at int64) {
 		switch kind {
 		case "fire":
-			delete(r.tw.wait, item)
+			r.tw.pop(item)
 			r.tw.now = at
 			r.tw.add(item)
 			r.setTime(at)
